@@ -366,10 +366,11 @@ func (p *ContractWatcherSellerV2) removeFullMiners(hrGHS float64) (removedGHS fl
 		miner, ok := p.allocator.GetMiners().Load(minerToRemove)
 		if ok {
 			miner.RemoveTasksByID(p.ID())
-			removedGHS = +miner.HashrateGHS()
+			removedGHS += miner.HashrateGHS()
 		}
 		_ = p.stats.removeFullMiner(minerToRemove)
-		if hrGHS-removedGHS < 0 {
+		// hrGHS is negative: the excess to shed; stop as soon as it is covered
+		if hrGHS+removedGHS >= 0 {
 			break
 		}
 	}
